@@ -27,7 +27,24 @@ THEOREMS = [P + t for t in (
     'Sbepp.Lemmas.Optional.denote_rel', 'Sbepp.Lemmas.Optional.float_rel',
     # the class-level cores of has_value / the operators / operator<=>
     'Sbepp.Lemmas.Optional.hasC_eq', 'Sbepp.Lemmas.Optional.ops_core', 'Sbepp.Lemmas.Optional.ship_core',
-]
+] + [
+    # translator tie: every member of required_base / optional_base regenerated from sbepp.hpp on this run
+    # (extract/methods_optional.py -> Sbepp.Extracted.OptionalMethods) = the hand model, per member
+    'Sbepp.Lemmas.OptionalTie.Required.%s_tie' % m for m in (
+        'ctorDefault', 'ctorValue', 'deref', 'derefRef', 'value', 'inRange', 'opCmp3', 'opEqDefaulted',
+        'opEq', 'opNe', 'opLt', 'opLe', 'opGt', 'opGe', 'rel')
+] + [
+    'Sbepp.Lemmas.OptionalTie.Optional.%s_tie' % m for m in (
+        'ctorDefault', 'ctorNullopt', 'ctorValue', 'deref', 'derefRef', 'value', 'inRange', 'hasValue', 'toBool',
+        'valueOr', 'opEq', 'opCmp3Ret', 'opCmp3', 'opNe', 'opLt', 'opLe', 'opGt', 'opGe', 'rel')
+] + [P + t for t in (
+    # the property theorems restated for the regenerated definitions
+    'has_value_spec_extracted', 'default_is_null_extracted', 'value_roundtrip_extracted',
+    'required_default_is_zero_extracted', 'cmp_rules_extracted', 'cmp_rules_operators_extracted',
+    'spaceship_extracted', 'spaceship_agrees_with_operators_extracted', 'value_or_spec_extracted',
+    'in_range_spec_extracted', 'required_cmp_rules_extracted', 'required_spaceship_agrees_extracted',
+)]
+EXTRACT_PART = 'methods_optional'
 
 FIELDS = ['eq', 'ne', 'lt', 'le', 'gt', 'ge', 'has_value_a', 'has_value_b', 'bool_a', 'in_range_a',
           'value_or', 'default_has_value', 'nullopt_bool', 'default_value']
@@ -545,7 +562,16 @@ def run(chk):
     correspond(chk, configs_for(chk.tier))
     if chk.failed_obligations and not chk.violations:
         chk.report_unproved('theorem', chk.failed_obligations)
+    ex_failed = (chk.extract_report or {}).get('parts', {}).get(EXTRACT_PART, {'failed': {'part': 'not run'}}).get('failed', {})
+    if ex_failed and not chk.violations:
+        chk.report_unproved('extraction', {'part': EXTRACT_PART, 'failed': ex_failed})
     chk.assumptions += [
+        'Rt.Scalar (Rt/Optional.lean) is a hand transliteration of required_base / optional_base; every constructor, '
+        'member function and friend operator (both comparison configurations) and the operator selection `rel` are '
+        'regenerated from sbepp.hpp by extract/methods_optional.py and proved equal to it without hypotheses '
+        '(Lemmas/OptionalTie.lean); the built-in operators on value_type (uRel/uCmp3 on Prim.load), the C++20 '
+        'rewriting rules for != and the orderings, and the typing facts listed in the header of '
+        'Extracted/OptionalMethods.lean are inputs of that translation',
         'plain char is signed, float/double are IEEE-754 binary32/binary64, little-endian host: checked on every '
         'run by the harness (optcfg)',
         'the hardware float comparisons agree with Ieee.classify keys: validated on the boundary/random grid; the '
